@@ -237,6 +237,9 @@ def judge(case):
 
 
 def judge_case(record):
+    part = record.get("part", "")
+    if part.startswith("python-"):  # found under an optimised interpreter: replay there
+        return runner.child_judge("C16", [record["case"]], py_flags=(part[len("python"):],))["results"][0]
     return judge(record["case"])["viol"]
 
 
@@ -244,7 +247,29 @@ def selftest():
     stats.selftest()
 
 
+def optimised_cases():
+    out = []
+    for kind in ["both", "long", "short", "zero", "negative", "nan", "inf", "long-cum", "short-cum", "zero-cum", "neg-cum", "inf-cum"]:
+        for pop, ws in (([1, "a", None], [1, 2, 3]), ([0], [5]), (["x", "y"], [0, 4])):
+            out.append({"kind": kind, "id": "u-%s" % kind, "pop": pop, "tuple": False, "ws": ws})
+    out.append({"kind": "good", "id": "unit-1", "pop": [1, 2, 3], "tuple": True, "ws": [1, 0, 2.5], "c": 3, "seed": 1})
+    return out
+
+
 def run(ctx, rec):
+    if ctx.shard == 0:
+        # the contract does not depend on how the interpreter was started: python -O / -OO (assert and __debug__ blocks compiled out)
+        cases = optimised_cases()
+        for flags in (("-O",), ("-OO",)):
+            res = runner.child_judge("C16", cases, py_flags=flags)
+            rec.count("child-interpreter:" + "".join(flags), len(cases))
+            rec.evaluations += len(cases)
+            if res["flags"]["optimize"] < 1:
+                raise runner.HarnessError("child did not run optimised")
+            for c, msgs in zip(cases, res["results"]):
+                if msgs:
+                    rec.violation("python%s" % "".join(flags), c, ["under python %s: %s" % ("".join(flags), m) for m in msgs])
+                    return
     runner.hyp_run(ctx, rec, "well-formed", good(), judge, ctx.n(1500, 6000))
     if rec.violations:
         return
